@@ -351,7 +351,7 @@ def misc_cases(tier):
         cases.append(('boot', n))
     for cls in ('MeasurementData', 'UserData', 'LayoutData'):
         for delta in (-1, 1, 1000):
-            for form in ('str', 'obj'):
+            for form in ('str', 'obj', 'str-compact', 'str-nonascii'):
                 cases.append(('blob', cls, form, delta))
         cases.append(('blob-invalid', cls))
     for val in (-1, 0, 1, 2 ** 40, 1.5, '1', -2 ** 40):
@@ -449,9 +449,18 @@ def eval_misc(case):
             return {'v': v, 'nt': case, 'out': 'blob-invalid'}
         _, cname, form, delta = case
         size = cls.MAX_SIZE + delta
-        text = '{"k": "' + 'x' * (size - len('{"k": ""}')) + '"}'
-        assert len(text) == size and json.dumps(json.loads(text)) == text
-        arg = text if form == 'str' else json.loads(text)
+        if form == 'str-compact':
+            # valid JSON text written without blanks after separators (re-encoding it would make it longer)
+            head = '{"a":[' + ','.join(['1'] * 40) + '],"k":"'
+            text = head + 'x' * (size - len(head) - 2) + '"}'
+        elif form == 'str-nonascii':
+            text = '{"k": "' + 'é' * (size - len('{"k": ""}')) + '"}'
+        else:
+            text = '{"k": "' + 'x' * (size - len('{"k": ""}')) + '"}'
+            assert json.dumps(json.loads(text)) == text
+        assert len(text) == size
+        json.loads(text)
+        arg = json.loads(text) if form == 'obj' else text
         must = size < cls.MAX_SIZE
         entries = {'constructor': lambda: cls(arg).json}
         attr = {'MeasurementData': 'mf_data', 'UserData': 'user_data', 'LayoutData': 'layout_data'}[cname]
@@ -468,6 +477,15 @@ def eval_misc(case):
                 v.append((f'accepts-outside/{cname}/{form}/{nm}', f'{size}-byte blob accepted (limit {cls.MAX_SIZE})'))
             if must and raised is None and json.loads(st) != json.loads(text):
                 v.append((f'not-stored-verbatim/{cname}/{form}/{nm}', 'stored blob differs'))
+            if must and raised is None and form.startswith('str') and nm == 'constructor' and st != text:
+                v.append((f'not-stored-verbatim/{cname}/{form}/{nm}', f'JSON text of {len(text)} chars stored as a different text of {len(st)} chars'))
+            if raised is None and nm == 'constructor' and len(st) > cls.MAX_SIZE:
+                v.append((f'stored-over-limit/{cname}/{form}', f'stored blob has {len(st)} chars, limit {cls.MAX_SIZE}'))
+            if must and raised is None and nm == 'constructor':
+                try:
+                    cls(st)
+                except Exception as e:
+                    v.append((f'accepted-not-reencodable/{cname}/{form}', f'{type(e).__name__}: {e}'))
         _reset_topo()
         return {'v': v, 'nt': case, 'out': f'blob:{must}'}
     if kind == 'cap':
